@@ -200,7 +200,8 @@ def schema_env_for_graph(deps, kinds):
 # running prophyc
 # ---------------------------------------------------------------------------
 INTERNAL_BASES = ("ValueError", "KeyError", "LookupError", "AttributeError", "TypeError", "IndexError", "AssertionError",
-                  "RecursionError", "RuntimeError", "NameError", "ArithmeticError", "MemoryError", "OSError", "UnicodeError")
+                  "RecursionError", "RuntimeError", "NameError", "ArithmeticError", "MemoryError", "OSError", "UnicodeError",
+                  "SyntaxError")      # xml.etree.ElementTree.ParseError is a SyntaxError
 
 
 class Watchdog(BaseException):
